@@ -1,6 +1,7 @@
 #!/bin/bash
 # tools/run_seed.sh <name> [PROP] : apply seeded/<name>/patch.diff to /repo, run the property's quick check, undo
 N=$1; P=${2:-$(python3 -c "import json;print(json.load(open('/verif/seeded/$N/meta.json'))['property'])")}
+[ -n "$(git -C /repo status --porcelain --untracked-files=no)" ] && { echo "/repo has uncommitted changes: refusing (the undo step would discard them)"; exit 8; }
 cp /verif/evidence/$P.json /var/tmp/evidence_$P.keep 2>/dev/null
 cd /repo && git apply /verif/seeded/$N/patch.diff || { echo "patch does not apply"; exit 9; }
 cd /verif && ./check $P --tier quick; RC=$?
